@@ -148,3 +148,88 @@ pub mod wasm {
         Some(from(r))
     }
 }
+
+// Conformance of the modelled NEON intrinsics (HH/Intrin/Neon.lean) on the aarch64 Miri runner: `intrin n<name> <imm> <ops>`.
+#[cfg(target_arch = "aarch64")]
+pub mod neon {
+    use core::arch::aarch64::*;
+
+    fn to(v: u128) -> uint64x2_t {
+        unsafe { core::mem::transmute(v) }
+    }
+    fn from(v: uint64x2_t) -> u128 {
+        unsafe { core::mem::transmute(v) }
+    }
+    fn d(v: u128) -> uint32x2_t {
+        unsafe { core::mem::transmute(v as u64) }
+    }
+    fn fromd(v: uint32x2_t) -> u128 {
+        let x: u64 = unsafe { core::mem::transmute(v) };
+        x as u128
+    }
+
+    pub unsafe fn run(name: &[u8], imm: usize, a: &[u128]) -> Option<u128> {
+        let g = |i: usize| a.get(i).copied().unwrap_or(0);
+        Some(match name {
+            b"nadd" => from(vaddq_u64(to(g(0)), to(g(1)))),
+            b"nsub" => from(vsubq_u64(to(g(0)), to(g(1)))),
+            b"nand" => from(vandq_u64(to(g(0)), to(g(1)))),
+            b"norr" => from(vorrq_u64(to(g(0)), to(g(1)))),
+            b"neor" => from(veorq_u64(to(g(0)), to(g(1)))),
+            b"nbic" => from(vbicq_u64(to(g(0)), to(g(1)))),
+            b"nmovn" => fromd(vmovn_u64(to(g(0)))),
+            b"nshrn" => fromd(match imm {
+                1 => vshrn_n_u64::<1>(to(g(0))),
+                16 => vshrn_n_u64::<16>(to(g(0))),
+                31 => vshrn_n_u64::<31>(to(g(0))),
+                32 => vshrn_n_u64::<32>(to(g(0))),
+                _ => return None,
+            }),
+            b"nmull" => from(vmull_u32(d(g(0)), d(g(1)))),
+            b"nshrq" => from(match imm {
+                1 => vshrq_n_u64::<1>(to(g(0))),
+                32 => vshrq_n_u64::<32>(to(g(0))),
+                62 => vshrq_n_u64::<62>(to(g(0))),
+                63 => vshrq_n_u64::<63>(to(g(0))),
+                64 => vshrq_n_u64::<64>(to(g(0))),
+                _ => return None,
+            }),
+            b"nrev" => from(vreinterpretq_u64_u32(vrev64q_u32(vreinterpretq_u32_u64(to(g(0)))))),
+            b"nsetl" => {
+                let v = vreinterpretq_u32_u64(to(g(1)));
+                let x = g(0) as u32;
+                from(vreinterpretq_u64_u32(match imm {
+                    0 => vsetq_lane_u32::<0>(x, v),
+                    1 => vsetq_lane_u32::<1>(x, v),
+                    2 => vsetq_lane_u32::<2>(x, v),
+                    3 => vsetq_lane_u32::<3>(x, v),
+                    _ => return None,
+                }))
+            }
+            b"ntbl" => from(vreinterpretq_u64_u8(vqtbl1q_u8(vreinterpretq_u8_u64(to(g(0))), vreinterpretq_u8_u64(to(g(1)))))),
+            b"next" => {
+                let (x, y) = (vreinterpretq_u8_u64(to(g(0))), vreinterpretq_u8_u64(to(g(1))));
+                from(vreinterpretq_u64_u8(match imm {
+                    0 => vextq_u8::<0>(x, y),
+                    1 => vextq_u8::<1>(x, y),
+                    8 => vextq_u8::<8>(x, y),
+                    15 => vextq_u8::<15>(x, y),
+                    _ => return None,
+                }))
+            }
+            b"nshl" => from(vreinterpretq_u64_u32(vshlq_u32(vreinterpretq_u32_u64(to(g(0))), vreinterpretq_s32_u64(to(g(1)))))),
+            b"ndup64" => from(vdupq_n_u64(g(0) as u64)),
+            b"ndup32" => from(vreinterpretq_u64_u32(vdupq_n_u32(g(0) as u32))),
+            b"ndup8" => from(vreinterpretq_u64_u8(vdupq_n_u8(g(0) as u8))),
+            b"nld64" => {
+                let arr = [g(0) as u64, g(1) as u64];
+                from(vld1q_u64(arr.as_ptr()))
+            }
+            b"nld8" => {
+                let mem: [u8; 16] = g(0).to_le_bytes();
+                from(vreinterpretq_u64_u8(vld1q_u8(mem.as_ptr())))
+            }
+            _ => return None,
+        })
+    }
+}
